@@ -45,7 +45,7 @@ class A(Adapter):
 
     def configs(self):
         base = [cfg("g10a10rw", True, g=10, a=10, gen="rw", tl=None), cfg("g5a2uni", True, g=5, a=2, gen="uni", tl=None),
-                cfg("g6a3rw", g=6, a=3, gen="rw", tl=None), cfg("g5a1rw", g=5, a=1, gen="rw", tl=None),
+                cfg("g6a3rw", g=6, a=3, gen="rw", tl=None), cfg("g5a1rw", True, g=5, a=1, gen="rw", tl=None),
                 cfg("g8a4uni", g=8, a=4, gen="uni", tl=None)]
         return cross_tl(base, [1, 2, 3, 7])
 
